@@ -254,6 +254,8 @@ def main():
         tuples = [t for t in tuples if model(op, t) != 'TRAP']
         if op['name'] in ('SIntQuo', 'SIntRem', 'SIntDivide', 'SIntMod', 'BIntQuo', 'BIntRem', 'BIntDivide', 'BIntMod', 'SIntPlusMod', 'SIntMinusMod', 'SIntTimesMod', 'BIntPowerMod', 'SIntGcd'):
             tuples = [t for t in tuples if t[-1] != 0 and not (t[0] == -2**63 and t[-1] == -1)]
+        # (a op b) may wrap to -2^63 before the reduction, and -2^63 % -1 is a hardware trap like division by zero: a modulus of -1 is outside every domain
+        if op['name'] in ('SIntPlusMod', 'SIntMinusMod', 'SIntTimesMod'): tuples = [t for t in tuples if t[-1] != -1]
         if op['name'] in ('BIntSIPower', 'BIntBIPower'): tuples = [t for t in tuples if blen(t[0]) * t[1] < 20000]
         if op['name'] == 'BIntShiftRem': tuples = [t for t in tuples if DEFS['BIntShiftRem'](*t) is not None]
         if op['name'] == 'WordDivideDouble': tuples = [t for t in tuples if (t[2] & (2**64 - 1)) != 0 and (t[0] & (2**64 - 1)) < (t[2] & (2**64 - 1))]
